@@ -45,6 +45,7 @@ type Control struct {
 }
 
 type Ctx struct {
+	sqlFacets map[string]bool // when set, compareToSpec judges only these facets of a statement
 	P        *Program
 	Prop     string
 	Tier     string
